@@ -20,4 +20,4 @@ git -C $wt apply "$patch" || { echo "patch does not apply"; git -C /repo worktre
 scr=$(mktemp -d /tmp/tsscr_XXXXXX)
 printf '%s\n' "$@" | xargs -P $par -I{} bash -c "VERIF_REPO=$wt VERIF_SCRATCH=$scr/{} timeout 1800 /verif/check {} --tier quick > $scr/{}.log 2>&1; echo \"rc=\$?\" >> $scr/{}.log"
 for c in "$@"; do echo "== $c $(tail -1 $scr/$c.log)"; grep -E "VIOLATION|KNOWN|^  " $scr/$c.log | head -4; done
-git -C /repo worktree remove --force $wt; rm -rf $scr
+git -C /repo worktree remove --force $wt; if [ -n "$KEEP" ]; then echo "logs kept in $scr"; else rm -rf $scr; fi
